@@ -25,7 +25,9 @@ RULE = ("op histories over a byte-rich name pool (bytes 0x01-0xff except '/'), <
         "per op | background-only | final-save-only | all-fail | held (a background flush whose Keep writes stay in "
         "flight while truncates/writes/renames run) | gated (a save with >= 2 writers during which one Keep write fails "
         "while successful ones are still in flight, then overwrites/truncates of the files it covered); plus pure "
-        "load->marshal cases and malformed texts; "
+        "load->marshal cases and malformed texts; plus `cg9` cases: the real contextGroup + throttle driven through a "
+        "driver-imposed schedule (Go/ctx-check/Keep answer ok|fail by arrival/parent cancel/background release/Wait, "
+        "capacity 1..4, 1..7 tasks, background writers holding slots) against the micro-step model of Model/C09_Conc; "
         "non-trivial = at least one successful save of a tree holding data, distinct = distinct case line")
 ASSUMPTIONS = [
     "background flushes are observed at quiescence (driver waits after every op); with a failure script the "
@@ -561,13 +563,41 @@ def replay(case, impl):
     return None
 
 
+def cg_oracle(case, impl):
+    """`cg9` cases: the property's clauses about a save whose block writes run under contextGroup + throttle,
+    judged on what the driver observed of the real code (never on the model)."""
+    f = case.split(" ")
+    if impl.startswith(("panic", "CRASH", "bad-op")):
+        return "implementation " + impl[:200]
+    d = dict(kv.split("=", 1) for kv in impl.split(";") if "=" in kv)
+    evs = [] if f[4] == "-" else f[4].split(",")
+    w = d.get("wait", "?")
+    if w == "hang":
+        return "the group never finished (a slot stays taken or a goroutine blocks for ever): a later save cannot succeed"
+    if w.startswith("early"):
+        return ("Wait returned (%s) while funcs it started were still running / Keep writes in flight: the save would "
+                "return before its writes are settled" % w)
+    if w == "nil" and int(d.get("fails", "0")) > 0:
+        return "a required block write failed but the save returned no error"
+    if w in ("nil", "ctx") or w.startswith("E"):
+        left = max(0, int(f[3]) - evs.count("B"))
+        if int(d.get("inuse", "-1")) != left:
+            return ("after the save returned %s write slot(s) are taken but only %d background writer(s) are left: "
+                    "a later save can block" % (d.get("inuse"), left))
+    return None
+
+
 def oracle(case, impl):
+    if case.startswith("cg9 "):
+        return cg_oracle(case, impl)
     return replay(case, impl)
 
 
 def finding_of(case, impl, why):
     """F9a: manifestEscape leaves byte 0x7f (DEL, a control code) unescaped. Matched only when the oracle's
     complaint is exactly that and some name in the case holds a 0x7f byte."""
+    if case.startswith("cg9 "):
+        return None
     if why and "saved manifest is outside the grammar" in why and "raw 0x7f in a token" in why:
         _, _, text, _, ops = case_fields(case)
         if b"\x7f" in text or any("7f" in a for op in ops for a in op.split(",")[1:]):
@@ -613,6 +643,8 @@ def compare(case, impl, model):
 
 
 def nontrivial_key(case, impl):
+    if case.startswith("cg9 "):
+        return hashlib.md5(case.encode()).hexdigest() if impl and ";arr=" in impl and ";arr=0;" not in impl else None
     if not impl or not impl.startswith("load=ok"):
         return None
     for r in impl.split(";")[1:]:
@@ -1012,6 +1044,38 @@ def _gen_load_case(rng, valid=True):
                                                ",".join(b.hex() or "_" for b in blocks) or "-")
 
 
+def _gen_cg_case(rng):
+    """a schedule for the real contextGroup + throttle: spawns, context checks, Keep answers (by arrival), parent
+    cancel, background releases, Wait; events are placed on a time line so that most of them are enabled"""
+    cap = rng.choice([1, 1, 2, 2, 3, 4])
+    n = rng.randint(1, 7)
+    bg = rng.choice([0, 0, 0, 1, cap]) if cap > 1 else rng.choice([0, 0, 1])
+    pfail = rng.choice([0.0, 0.15, 0.3, 0.6, 1.0])
+    ev = []
+    last_spawn = 0.0
+    for i in range(n):
+        if rng.random() < 0.07:
+            continue                      # never spawned
+        t = rng.random() * rng.choice([0.2, 0.6, 1.0])
+        last_spawn = max(last_spawn, t)
+        ev.append((t, "s%d" % i))
+        if rng.random() < 0.93:
+            ev.append((t + rng.random() * 0.5, "c%d" % i))
+    for _ in range(n + rng.randint(-1, 2)):
+        ev.append((rng.random() * 1.6, "F" if rng.random() < pfail else "P"))
+    if rng.random() < 0.6:
+        for _ in range(n):
+            ev.append((1.6 + rng.random(), "F" if rng.random() < pfail else "P"))
+    for _ in range(bg if rng.random() < 0.8 else rng.randint(0, bg + 1)):
+        ev.append((rng.random() * 1.2, "B"))
+    if rng.random() < 0.12:
+        ev.append((rng.random() * 1.4, "X"))
+    if rng.random() < 0.7:
+        ev.append((last_spawn + 1e-9 + rng.random() * 0.5, "W"))
+    ev.sort()
+    return "cg9 %d %d %d %s" % (cap, n, bg, ",".join(e for _, e in ev) or "-")
+
+
 def generate(rng, tier):
     cases = []
     n = 1300 if tier == "quick" else 24000
@@ -1026,6 +1090,9 @@ def generate(rng, tier):
     # names holding 0x7f (known finding F9a), kept apart so that all other cases stay fully checked
     for _ in range(3 if tier == "quick" else 30):
         cases.append(_gen_case(rng, tier, nops=rng.randint(6, 20), mode="none", del7f=True))
+    # the real contextGroup + throttle under imposed schedules (Model/C09_Conc)
+    for _ in range(400 if tier == "quick" else 6000):
+        cases.append(_gen_cg_case(rng))
     return cases
 
 
@@ -1033,8 +1100,26 @@ def describe(cases, impl):
     ops, saves, blocks, lens = {}, {"ok": 0, "err": 0, "other": 0}, {}, {"<=25": 0, "26-90": 0, ">90": 0}
     with_manifest = load_err = failed_writes = save_fail_then_ok = odd_names = 0
     scripts = {}
+    cg = {"cases": 0, "wait": {}, "with_failed_write": 0, "with_skip": 0, "with_dropped_func": 0, "parent_cancel": 0,
+          "with_background_writers": 0, "tasks_waiting_for_a_slot_when_a_write_failed": 0, "capacity": {}}
     for c, r in zip(cases, impl):
         f = c.split(" ")
+        if f[0] == "cg9":
+            cg["cases"] += 1
+            cg["capacity"][f[1]] = cg["capacity"].get(f[1], 0) + 1
+            cg["parent_cancel"] += ",X" in "," + f[4]
+            cg["with_background_writers"] += f[3] != "0"
+            if r:
+                d = dict(kv.split("=", 1) for kv in r.split(";") if "=" in kv)
+                w = d.get("wait", "?")
+                w = "E<k>" if w.startswith("E") else w
+                cg["wait"][w] = cg["wait"].get(w, 0) + 1
+                cg["with_failed_write"] += d.get("fails", "0") != "0"
+                cg["with_skip"] += d.get("skip", "-") != "-"
+                cg["with_dropped_func"] += d.get("drop", "-") != "-"
+                cg["tasks_waiting_for_a_slot_when_a_write_failed"] += (d.get("fails", "0") != "0" and
+                                                                        int(d.get("arr", "0")) > int(f[1]) - int(f[3]))
+            continue
         blocks[f[1]] = blocks.get(f[1], 0) + 1
         with_manifest += f[3] != "-"
         os_ = [] if f[5] == "-" else f[5].split(";")
@@ -1067,10 +1152,19 @@ def describe(cases, impl):
     return {"ops": ops, "saves": saves, "maxBlockSize": blocks, "cases_with_manifest": with_manifest,
             "load_errors": load_err, "history_length": lens, "keep_scripts": scripts,
             "failed_keep_writes_during_saves": failed_writes, "failed_save_followed_by_successful_save": save_fail_then_ok,
-            "ops_with_non_plain_names": odd_names}
+            "ops_with_non_plain_names": odd_names, "contextgroup_throttle_schedules": cg}
 
 
 def neighbours(case, rng):
+    if case.startswith("cg9 "):
+        f = case.split(" ")
+        evs = [] if f[4] == "-" else f[4].split(",")
+        out = [_gen_cg_case(rng) for _ in range(3)]
+        if len(evs) > 1:
+            k = rng.randint(1, len(evs) - 1)
+            out.append(" ".join(f[:4] + [",".join(evs[:k])]))
+            out.append(" ".join(f[:4] + [",".join(evs[:k] + evs[k + 1:])]))
+        return out
     f = case.split(" ")
     ops = [] if f[5] == "-" else f[5].split(";")
     out = []
